@@ -33,12 +33,13 @@ VARIABLES l,        \* current log line
           idleN,    \* number of consecutive idle syncs (no application step in between) so far
           idleNew,  \* level-0 files created by the idle syncs after the second one
           t0,       \* log line of the current trace's Reset
+          ep0,      \* log line at which the current local epoch began (Reset, or the last reset / loss of the state directory)
           lastAck,  \* log line of the last acknowledgement in this trace (t0 if none)
           retained, \* a retention pass has run in this trace
           pendLoss, \* an in-flight litestream checkpoint has destroyed committed frames that no level-0 file covers (yet)
           sameSince,\* the same DB object was reopened while `lost`
           hz        \* shapes of known findings (known_findings.json "signature") seen so far in this trace
-vars == <<l, lost, reset, floor, idleN, idleNew, t0, lastAck, retained, pendLoss, sameSince, hz>>
+vars == <<l, lost, reset, floor, idleN, idleNew, t0, ep0, lastAck, retained, pendLoss, sameSince, hz>>
 
 cur  == Log[l]
 prev == Log[l - 1]
@@ -78,21 +79,24 @@ PgSet(f) == {f.pgs[i] : i \in DOMAIN f.pgs}
 L0Known(n) == \E f \in RemSeen : f.lvl = 0 /\ f.min = n /\ f.max = n /\ f.err = "none"
 L0At(n) == CHOOSE f \in RemSeen : f.lvl = 0 /\ f.min = n /\ f.max = n /\ f.err = "none"
 
-Init == l = 1 /\ lost = FALSE /\ reset = FALSE /\ floor = 0 /\ idleN = 0 /\ idleNew = 0 /\ t0 = 1 /\ lastAck = 1 /\ retained = FALSE /\ pendLoss = FALSE /\ sameSince = FALSE /\ hz = {}
+Init == l = 1 /\ lost = FALSE /\ reset = FALSE /\ floor = 0 /\ idleN = 0 /\ idleNew = 0 /\ t0 = 1 /\ ep0 = 1 /\ lastAck = 1 /\ retained = FALSE /\ pendLoss = FALSE /\ sameSince = FALSE /\ hz = {}
 
 Next ==
   /\ l < Len(Log) /\ l' = l + 1
   /\ LET e == Log[l + 1]  p == Log[l] IN
-     IF e.op = "Reset" THEN lost' = FALSE /\ reset' = FALSE /\ floor' = 0 /\ idleN' = 0 /\ idleNew' = 0 /\ t0' = l + 1 /\ lastAck' = l + 1 /\ retained' = FALSE /\ pendLoss' = FALSE /\ sameSince' = FALSE /\ hz' = {}
+     IF e.op = "Reset" THEN lost' = FALSE /\ reset' = FALSE /\ floor' = 0 /\ idleN' = 0 /\ idleNew' = 0 /\ t0' = l + 1 /\ ep0' = l + 1 /\ lastAck' = l + 1 /\ retained' = FALSE /\ pendLoss' = FALSE /\ sameSince' = FALSE /\ hz' = {}
      ELSE
        LET genChanged == e.wal.gen # p.wal.gen \/ ~e.wal.exists
            chkLoss   == IsChk(e) /\ genChanged /\ Unsynced(l)        \* litestream's own PRAGMA removed frames it had not copied
            \* ... which is only a loss if that checkpoint then fails before its boundary snapshot (G1)
            byChk     == ChkFailed(e) /\ (pendLoss \/ chkLoss)
-           \* the local state went away together with level-0 files that were never uploaded, and the WAL generation those
-           \* frames lived in is gone too (the replica's last file, which litestream will re-fetch, is from another generation)
+           \* the local state went away together with level-0 files that were never uploaded AND at least one of them copied
+           \* from a WAL generation that has since been replaced: those frames exist nowhere any more.  (If every such file
+           \* copied from the live generation, the frames are still in the WAL and continuity remains provable.)
+           \* level-0 files of the current local epoch that never reached the replica, and the WAL generations they copied from
+           localOnlyGens == {f.gen : f \in {g \in UNION {ToSet(Log[j].newl0) : j \in ep0..l} : ~g.fetched /\ g.min > p.rpos}}
            resetLoss == /\ e.op \in {"LsReset", "MetaLost"} /\ e.res = "ok" /\ p.lpos > p.rpos /\ p.rpos > 0
-                        /\ L0Known(p.rpos) /\ e.wal.exists /\ e.wal.gen # L0At(p.rpos).gen
+                        /\ \E g \in localOnlyGens : (~e.wal.exists \/ g # e.wal.gen)
            destroyed == (IsApp(e) /\ e.res # "skip" /\ genChanged /\ Unsynced(l)) \/ byChk \/ resetLoss
            \* the database file itself was replaced by another version: whatever the WAL looks like, the old chain is void.
            \* (A lost/reset local state directory alone is NOT in this class: litestream re-fetches its last file from the
@@ -106,6 +110,7 @@ Next ==
           /\ reset' = (reset0 \/ stateLost)
           /\ floor' = IF (destroyed \/ stateLost) /\ ~lost0 /\ ~reset0 THEN p.rpos ELSE floor
           /\ t0' = t0
+          /\ ep0' = IF e.op \in {"LsReset", "MetaLost", "RestoreAll"} /\ e.res = "ok" THEN l + 1 ELSE ep0
           /\ lastAck' = IF e.ack THEN l + 1 ELSE lastAck
           /\ retained' = (retained \/ (e.op \in {"SnapRetention", "L0Retention", "RetByTXID", "L0RetentionAbs", "SnapRetentionAbs"} /\ e.res # "skip"))
           /\ pendLoss' = IF IsChk(e) THEN (IF e.res = "at" THEN (pendLoss \/ chkLoss) ELSE FALSE) ELSE pendLoss
